@@ -164,6 +164,49 @@ func TestC15Amd64Installed(t *testing.T) {
 			check(hist+", Unpatch", nil, 0)
 			rep.Class("installed/guard-reuse-with-placeholder")
 		}
+		// the function carries an entry jump the registry has forgotten (UnpatchAll followed by Restore of a kept guard
+		// leaves it so): a new mock with an origin placeholder must not take that jump for the function's own head -
+		// refused with everything untouched, or accepted with a placeholder that still leads to the original
+		rep.Journal(map[string]interface{}{"part": "installed", "step": "forgotten jump"})
+		if g1, err := Ptr(entry, fA); err != nil {
+			rep.Violate("C15/installed-sequence", fmt.Sprintf("forgotten jump: %v", err), nil)
+		} else {
+			g1.Apply()
+			lock()
+			delete(patches, entry)
+			unlock()
+			phBefore := append([]byte{}, vmon.ReadMem(vmon.FuncCodePtr(c15OriginPh2), 48)...)
+			entryBefore := append([]byte{}, vmon.ReadMem(entry, 16)...)
+			var g2 *Guard
+			var perr error
+			func() {
+				defer func() {
+					if r := recover(); r != nil {
+						perr = fmt.Errorf("panic: %v", r)
+					}
+				}()
+				g2, perr = PtrTrampoline(entry, fB, &c15OriginPh2)
+			}()
+			rep.Eval(2)
+			if perr != nil {
+				if string(vmon.ReadMem(entry, 16)) != string(entryBefore) || string(vmon.ReadMem(vmon.FuncCodePtr(c15OriginPh2), 48)) != string(phBefore) {
+					rep.Violate("C15/refused-but-modified", fmt.Sprintf("forgotten jump: the new mock was refused (%v) but entry or placeholder bytes changed", perr), nil)
+				}
+				rep.Class("installed/forgotten-jump/refused")
+			} else {
+				g2.Apply()
+				if got := c15OriginPh2(5); got != 35 {
+					rep.Violate("C15/placeholder-does-not-return-to-origin", fmt.Sprintf("a mock with a placeholder installed over an entry jump the registry had forgotten: the placeholder called with 5 gives %d (the forgotten mock answers), the function's own result is 35", got), nil)
+				}
+				g2.UnpatchWithLock()
+				rep.Class("installed/forgotten-jump/accepted")
+			}
+			lock()
+			delete(patches, entry)
+			unlock()
+			g1.UnpatchWithLock()
+			check("forgotten jump: cleaned up", nil, 0)
+		}
 		rep.Journal(map[string]interface{}{"part": "installed", "step": "two guards"})
 		ga, errA := Ptr(entry, fA)
 		gb, errB := Ptr(entry, fB)
@@ -311,4 +354,11 @@ var c15OriginPh = func(a int) int {
 	fmt.Fprintln(io.Discard, "only a placeholder, never called")
 	fmt.Fprintln(io.Discard, "only a placeholder, never called")
 	return -1000
+}
+
+var c15OriginPh2 = func(a int) int {
+	fmt.Fprintln(io.Discard, "only another placeholder, never called")
+	fmt.Fprintln(io.Discard, "only another placeholder, never called")
+	fmt.Fprintln(io.Discard, "only another placeholder, never called")
+	return -2000
 }
